@@ -667,6 +667,13 @@ func ruleRejectSet(c *RC) *RuleResult {
 				okk = true
 			}
 		}
+		// the reason may have been established inside an accessor walked inline (it is a fact of the path then, not one
+		// of its branch literals)
+		for k, v := range e.F.m {
+			if at := e.F.atoms[k]; at != nil && allowed(Lit{at, v}) {
+				okk = true
+			}
+		}
 		if okk {
 			r.ok("rejection path has an allowed reason: {" + strings.Join(e.Trail, "; ") + "}")
 		} else {
